@@ -73,6 +73,9 @@ def make_block(rng):
                     c, d, e = rng.choice(KNOWN_CDE)
                 elif r < 0.55:
                     c, d, e = 1, 0, 0
+                elif r < 0.61:
+                    # codes that DSMR / ESMR telegrams carry next to the registers: version, equipment ids, text messages, M-Bus device types
+                    c, d, e = rng.choice(((0, 2, 8), (96, 1, 1), (96, 1, 0), (96, 13, 0), (96, 13, 1), (96, 14, 0), (24, 1, 0), (96, 1, 7), (0, 0, 5), (96, 7, 21), (17, 0, 0)))
                 elif r < 0.67:
                     # a code that a *naive packing* of (C, D, E) cannot tell from a named one: base-100 / base-10 packing with a carry
                     # (1.7.100 ~ 1.8.0), the digits written next to each other (1.80.0 ~ 18.0.0), one group above 99 or 199
@@ -117,6 +120,17 @@ def make_block(rng):
                 else:
                     unit = None
                     n_chars = rng.randint(0, 24)
+                    if rng.random() < 0.12:
+                        # text that reads like a quantity - "230 V", "3 kW", "1.5kWh" - but is not written as value*unit: verbatim;
+                        # and hex-coded text of special characters (blanks, NULs, letters and digits) as meters send ids and messages
+                        v = rng.choice((f"{p1_ref.decimal_text(rng)} {rng.choice(p1_ref.UNITS_K + p1_ref.UNITS_PLAIN)}", f"{rng.randint(0, 999)}{rng.choice(('kW', 'V', 'A', 'kWh'))}",
+                                        "2020", "20", "00", "0A0D", "202020202020", "31323334", "4B384547303034303436333935353037", "414243", "50", "42", "5"))
+                        vals.append((v, None))
+                        tags.add("text_value")
+                        if nvals == 1:
+                            k2, kind, payload = p1_ref.expected_decode(f"{c}.{d}.{e}", v, None, names.OBIS_NAMES)
+                            decode_expect[key] = (kind, payload)
+                        continue
                     if long_kind == "long_text_value" and li == long_at and si == 0:
                         n_chars = rng.choice((2040, 2047, 2048, 2049, 2100, 4096, 6000))  # e.g. the 1024-octet text message of DSMR, hex coded
                         tags.add("line_longer_than_2048")
